@@ -630,6 +630,25 @@ def table_roundtrip(cols, base, keep=None):
     return bad
 
 
+def reads_differently(full: bytes, cut: bytes, base):
+    """'' if both byte strings read as the same table (names, dtypes kinds, values), else what differs"""
+    from fieldcompare.io import read_field_data
+    got = []
+    for i, content in enumerate((full, cut)):
+        path = f"{base}_nl{i}.csv"
+        open(path, "wb").write(content)
+        try:
+            with warnings.catch_warnings():
+                warnings.simplefilter("ignore")
+                fd = read_field_data(path, {"dsv": {"delimiter": ",", "use_names": True}})
+                got.append([(f.name, np.asarray(f.values).dtype.kind, np.asarray(f.values).tolist()) for f in fd])
+        except Exception as e:  # noqa: BLE001
+            got.append(f"raised {type(e).__name__}: {str(e)[:100]}")
+        finally:
+            os.unlink(path)
+    return "" if got[0] == got[1] else f"{str(got[1])[:120]} instead of {str(got[0])[:120]}"
+
+
 def table_stream(ctx, n):
     rng = ctx.rng
     base = os.path.join(str(ctx.workdir), "tab")
@@ -652,6 +671,12 @@ def table_stream(ctx, n):
             else:
                 ctx.violation("E4", "csv round trip: the written file does not have one line of names and one line per row for a strict "
                               "csv parser", tb, impl=parsed[:3])
+        if keep and not bad and keep[0].endswith(b"\n"):
+            # C13_csv_final_newline_irrelevant: the same file without its final line break reads as the same table
+            ctx.tie("T2 read_table_final_newline: file without its final line break reads the same")
+            diff = reads_differently(keep[0], keep[0][:-1], base)
+            if diff:
+                ctx.violation("E4", "csv: the written file without its final line break does not read as the same table: " + diff, tb)
         ctx.case(tb, len(tb["cols"]) >= 2, sample={"table": tb, "result": "as written" if not bad else bad[:2]})
         ctx.count("scenario:table")
         for c in tb["cols"]:
